@@ -951,7 +951,14 @@ def sx_divmod(x, c):
         if c.hi - c.lo <= cx.fork_limit:
             cv = c.concrete('divisor')
             return sx_divmod(x, cv)
-        raise Unsupported('division by a symbolic integer with a wide range')
+        # nonlinear: sound over-approximation by unconstrained results (only the sign/zero
+        # structure is kept); a property that depends on the value gets candidates that must replay
+        if c == 0:
+            raise ZeroDivisionError('integer division or modulo by zero')
+        cx.env['nonlinear_overapprox'] = cx.env.get('nonlinear_overapprox', 0) + 1
+        q = cx.fresh_int('nlq')
+        r = cx.fresh_int('nlr')
+        return q, r
     if c == 0:
         raise ZeroDivisionError('integer division or modulo by zero')
     if c < 0:
